@@ -27,10 +27,25 @@ GUARDS_TRUST = (
     "hand-written meanings of C code that is not translated, tied by the end-to-end runs only")
 
 
+UNIT_TRUST = {
+    "chan": "translate/units/chan.py + _stagec.py: set_dirty, chan_set, chan_push, chan_pop, get_value, chan_read, chan_flush, chan_dirty, "
+            "chan_prop_set/get of src/emu/chan.c are rendered into coq/Gen/Chan_gen.v from clang's JSON AST on every run and proved to compute "
+            "raw_apply / raw_read (coq/Proofs/ChanProofs.v); clang's AST and the Python printer are trusted; coq/Emu/ChanPre.v (struct value, "
+            "value_is_equal = memcmp of the two fields, the channel record with the union kept as two fields, the dirty callback as an input "
+            "status) is hand-written",
+    "prv": "translate/units/prv.py + _stagec.py: is_value_dup, emit, check_flags of src/emu/pv/prv.c are rendered into coq/Gen/Prv_gen.v on every "
+           "run and proved equal to EmuCoreDefs.emit (coq/Proofs/PrvEmitProofs.v); coq/Emu/PrvPre.v (the value read from the channel as an input, "
+           "write_line as an output record, value_is_equal/value_is_null) is hand-written",
+}
+
+
 def setup(chk, extra_units=()):
     chk.trusted_base = list(TRUST)
     if "guards" in extra_units:
         chk.trusted_base.append(GUARDS_TRUST)
+    for u in extra_units:
+        if u in UNIT_TRUST:
+            chk.trusted_base.append(UNIT_TRUST[u])
     broken = common.translate(["tables"] + list(extra_units))
     if broken:
         chk.proof_broken = {"kind": "translator", "messages": broken}
